@@ -742,3 +742,80 @@ def run_bitreader_content(chk, F, fs, rule="R7.content", widths=None):
         key0 = "%s@u64%s" % (spec.key, "" if fs == "default" else "@" + fs)
         chk.expect(rule, key0 + "|result", ok and cnt > 0, "%s: %s" % (b["path"], why or "no path analysed"),
                    detail={"fn": b["path"], "why": why}, sample={"fn": spec.key, "paths": cnt})
+
+
+def run_seek_content(chk, F, fs, rule="S.content", widths=None):
+    """BufBitReader::set_bit_pos(p): the backend is positioned at word p / W; when p % W = r > 0 exactly one word is fetched
+    and the buffer holds exactly its W - r last stream bits (BE: the low bits of the word, moved to the top of the buffer;
+    LE: the high bits, moved to the bottom) and zeros elsewhere; when r = 0 nothing is fetched and the buffer is empty."""
+    C = seq_contracts()
+    for spec in rn.reader_specs():
+        parts = spec.key.split(".")
+        if parts[0] != "reader" or parts[2] != "set_bit_pos":
+            continue
+        e = parts[1]
+        BUF = ("field", ("deref", rn.SELF), "buffer")
+        BITS = ("field", ("deref", rn.SELF), "bits_in_buffer")
+        for w in spec.widths:
+            if widths is not None and w not in widths:
+                continue
+            b, wk, paths = _paths_for(F, spec, w, C)
+            num = wk.num
+            ok, why, cnt = True, None, 0
+
+            def fail(msg):
+                nonlocal ok, why
+                if ok:
+                    ok, why = False, msg
+            P = ("arg", 2, "bit_index")
+            for p in paths:
+                if p.end[0] != "return" or re_.ok_value(p) is None:
+                    continue
+                store = wk.full_store(p.state)
+                if not lp.feasible_cached(store):
+                    continue
+                num.ctx_events = p.state["events"]
+                num.ctx_cons = p.state["cons"]
+                num.ctx_mem = p.mem
+                S = Seqs(num, store, {}, {})
+                wc = ("uneval", "common_traits::AsBytes::BITS", ("<WR as traits::words::WordRead>::Word",), None)
+                q = num.aff(("binop", "Div", P, ("const", w, "u64")))
+                r = num.aff(("binop", "Rem", P, ("const", w, "u64")))
+                try:
+                    words, seeks = [], []
+                    for ev in p.calls():
+                        if ev[1] == "traits::words::WordRead::read_word":
+                            S.sources[("okval", ev[3])] = ("w%d" % len(words), w)
+                            words.append("w%d" % len(words))
+                        if ev[1] == "traits::words::WordSeek::set_word_pos":
+                            seeks.append(S.aff(ev[8][1]))
+                    if q is None or r is None:
+                        raise Undecided("p / W or p % W not available")
+                    if len(seeks) != 1 or seeks[0] is None or not S.ent_eq(seeks[0], q):
+                        fail("set_bit_pos does not position the backend at word bit_index / %d" % w)
+                        continue
+                    b1 = num.aff(p.mem.get(BITS, BITS))
+                    buf1 = S.seq(p.mem.get(BUF, BUF))
+                    W2 = 2 * w
+                    cnt += 1
+                    if not words:
+                        good = S.ent_eq(r, const(0)) and S.ent_eq(b1, const(0)) and buf1 is not None and S.same(buf1, [("Z", const(W2))])
+                        if not good:
+                            fail("on the path that fetches no word the offset is %s, bits_in_buffer %s, buffer %s" % (r, b1, S.fmt(buf1)))
+                        continue
+                    if len(words) != 1:
+                        fail("set_bit_pos fetches %d words" % len(words))
+                        continue
+                    rest_len = const(w) - r
+                    rest = [("S", "w0", const(0) if e == "be" else r, rest_len)]
+                    want = S.norm(rest + [("Z", const(W2) - rest_len)]) if e == "be" else S.norm([("Z", const(W2) - rest_len)] + rest)
+                    if buf1 is None or not S.ent_eq(b1, rest_len) or not S.same(buf1, want):
+                        fail("after set_bit_pos the buffer is %s with %s valid bits; the stream requires %s" % (S.fmt(buf1), b1, S.fmt(want)))
+                except Undecided as ex:
+                    import os, traceback
+                    if os.environ.get("SEQ_DEBUG"):
+                        traceback.print_exc()
+                    fail("layout cannot be decided on a path: %s" % ex)
+            key0 = "%s@u%d%s" % (spec.key, w, "" if fs == "default" else "@" + fs)
+            chk.expect(rule, key0, ok and cnt > 0, "%s, word u%d: %s" % (b["path"], w, why or "no path analysed"),
+                       detail={"fn": b["path"], "cfg": "u%d" % w, "why": why}, sample={"fn": spec.key, "cfg": "u%d" % w, "paths": cnt})
